@@ -9,6 +9,7 @@ import ZV.Driver.C10
 import ZV.Driver.C11
 import ZV.Driver.C12
 import ZV.Driver.C13
+import ZV.Driver.Lub
 import ZV.Driver.CK
 import ZV.Driver.ZCore
 
@@ -20,6 +21,7 @@ def dispatch (line : String) : String :=
   | "c08" :: ws => ZV.Driver.C08.handle ws
   | "c09" :: ws => ZV.Driver.C09.handle ws
   | "c10" :: ws => ZV.Driver.C10.handle ws
+  | "lub" :: ws => ZV.Driver.Lub.handle ws
   | "zc" :: ws => ZV.Driver.ZCore.handle ws
   | "c12" :: ws => ZV.Driver.C12.handle ws
   | "c13" :: ws => ZV.Driver.C13.handle ws
